@@ -251,9 +251,15 @@ fn classify(pid: i32, tid: i32, own: bool) -> Node {
     if comm == "vheld" {
         return mk("runs the requested program, which stays until the monitored call has returned".into(), Block::Held);
     }
+    if comm == "vatexit" {
+        return mk("a forked copy of the caller that runs the caller's exit handlers and waits there for a lock whose owner does not exist in the copy".into(), Block::Forever);
+    }
     if comm == "vforever" {
         let blk = std::fs::read_to_string(format!("/proc/{}/status", pid)).ok().and_then(|s| s.lines().find(|l| l.starts_with("SigBlk:")).map(|l| l.to_string())).unwrap_or_default();
         return mk(format!("loops for ever ignoring EPIPE, ends only by a signal ({})", blk.replace('\t', " ")), Block::Forever);
+    }
+    if own && crate::interpose::in_empty_wait(tid) {
+        return mk("poll(-1) on an empty descriptor set: no descriptor and no timeout can end it".into(), Block::Forever);
     }
     let (nr, a) = match thread_syscall(pid, tid) {
         Some(x) => x,
